@@ -189,7 +189,8 @@ pub fn check(m: &mut Monitor, c: &Case) {
                 } else if margin < 0 && margin >= -NS {
                     m.count("threshold_within_1s_stale");
                 }
-                if m.wants_sample() && margin.abs() <= NS {
+                if m.wants_sample() && margin.abs() <= NS && m.counter("sampled_threshold_cases") < 4 {
+                    m.count("sampled_threshold_cases");
                     let mut w = c.json();
                     w["open"] = json!(got);
                     w["class"] = json!(class);
@@ -398,7 +399,7 @@ pub fn run(args: &Args) -> i32 {
         return mon.finish();
     }
     let n_shards = 64u64;
-    let per_shard = args.scale(5_000_000, 60_000_000);
+    let per_shard = args.scale(3_000_000, 50_000_000);
     let sweep_parts = if args.is_thorough() { 64 } else { 64 * 8 };
     vcommon::monitor::run_shards(&mut mon, args.threads, n_shards, |shard, m| {
         if shard == 0 {
